@@ -21,6 +21,11 @@ type Site struct {
 	Block *ssa.BasicBlock
 	Idx   int
 	Instr ssa.Instruction
+	// Lifted: not a matching call itself but the call of a newly extracted helper that contains one (see CallsIn)
+	Lifted bool
+	// Must (lifted sites): the helper cannot return successfully without a successful matching call — only then does the
+	// helper's call stand for the matching call where a rule demands that the call HAS happened
+	Must bool
 }
 
 func (s Site) Call() ssa.CallInstruction { c, _ := s.Instr.(ssa.CallInstruction); return c }
@@ -52,7 +57,7 @@ func liveBlocks(fn *ssa.Function) []*ssa.BasicBlock {
 func eachInstr(fn *ssa.Function, f func(s Site)) {
 	for _, b := range liveBlocks(fn) {
 		for i, ins := range b.Instrs {
-			f(Site{fn, b, i, ins})
+			f(Site{Fn: fn, Block: b, Idx: i, Instr: ins})
 		}
 	}
 }
@@ -78,15 +83,188 @@ func Suffix(sfx ...string) Matcher {
 	}
 }
 
-// CallsIn lists plain calls (not defer/go) in fn whose callee key matches.
+// CallsIn lists plain calls (not defer/go) in fn whose callee key matches. A call of a helper that the reference tree
+// does not know (freshFuncs: a function that was extracted since) counts as well when the matching call sits in that
+// helper: "extract function" moves a call out of the function a rule looks at, the call of the new helper stands where
+// the moved statements stood.
 func CallsIn(fn *ssa.Function, m Matcher) []Site {
 	var out []Site
 	eachInstr(fn, func(s Site) {
-		if c, ok := s.Instr.(*ssa.Call); ok && m(CalleeKey(c)) {
+		c, ok := s.Instr.(*ssa.Call)
+		if !ok {
+			return
+		}
+		if m(CalleeKey(c)) {
+			out = append(out, s)
+			return
+		}
+		if sc := c.Call.StaticCallee(); sc != nil && isFresh(sc) && freshContains(sc, m, 0, map[*ssa.Function]bool{}) {
+			s.Lifted = true
+			s.Must = freshMustPass(sc, m, 0)
 			out = append(out, s)
 		}
 	})
 	return out
+}
+
+// directOnly drops the lifted sites: for rules about what stands around the real call, which hold (or not) in the helper.
+func directOnly(sites []Site) []Site {
+	var out []Site
+	for _, s := range sites {
+		if !s.Lifted {
+			out = append(out, s)
+		}
+	}
+	return out
+}
+
+// realSites: the matching calls themselves — in fn, and inside the newly extracted helpers fn calls (as sites of those
+// helpers): for rules about what happens to the call's result, which is decided where the call stands.
+func realSites(fn *ssa.Function, m Matcher) []Site {
+	var out []Site
+	seen := map[*ssa.Function]bool{}
+	var walk func(g *ssa.Function, depth int)
+	walk = func(g *ssa.Function, depth int) {
+		if g == nil || seen[g] || depth > 3 {
+			return
+		}
+		seen[g] = true
+		for _, s := range CallsIn(g, m) {
+			if !s.Lifted {
+				out = append(out, s)
+				continue
+			}
+			if sc := s.Instr.(*ssa.Call).Call.StaticCallee(); sc != nil {
+				walk(sc, depth+1)
+			}
+		}
+	}
+	walk(fn, 0)
+	return out
+}
+
+// freshFuncs: declared module functions that are not in the reference table and were not recognised as a renamed
+// reference function (set by resolveRenamed; empty on the reference tree).
+var freshFuncs = map[*ssa.Function]bool{}
+
+func isFresh(fn *ssa.Function) bool {
+	if fn == nil {
+		return false
+	}
+	if o := fn.Origin(); o != nil {
+		fn = o
+	}
+	return freshFuncs[fn]
+}
+
+// freshMustPass: every successful way out of g (a return with a nil error; any return when g has no error result) lies
+// behind the success edge of a matching call (or of a helper call for which the same holds).
+func freshMustPass(g *ssa.Function, m Matcher, depth int) bool {
+	if g == nil || g.Blocks == nil || depth > 3 {
+		return false
+	}
+	removed := map[Edge]bool{}
+	any := false
+	for _, a := range CallsIn(g, m) {
+		if a.Lifted && !a.Must {
+			continue
+		}
+		succ, fail := errorEdges(a)
+		if len(succ) == 0 && len(fail) == 0 {
+			// no error to test: having passed the call is enough
+			for _, su := range a.Block.Succs {
+				removed[Edge{a.Block, su}] = true
+			}
+			// the rest of the block behind the call counts as passed: returns in the same block are fine
+			any = true
+			continue
+		}
+		for _, e := range succ {
+			removed[e] = true
+		}
+		any = true
+	}
+	if !any {
+		return false
+	}
+	// the ways out that can be successful: every return that does not stand behind the failure edge of a call
+	var failTo []*ssa.BasicBlock
+	eachInstr(g, func(s Site) {
+		if _, ok := s.Instr.(*ssa.Call); ok {
+			if _, fail := errorEdges(s); len(fail) > 0 {
+				for _, e := range fail {
+					failTo = append(failTo, e.To)
+				}
+			}
+		}
+	})
+	var exits []Site
+	for _, rs := range returnsOf(g) {
+		behindFailure := false
+		for _, ft := range failTo {
+			if ft == rs.Block || dominates(ft, rs.Block) {
+				behindFailure = true
+			}
+		}
+		if !behindFailure {
+			exits = append(exits, rs)
+		}
+	}
+	idxG := errorResultIndex(g)
+	for _, rs := range exits {
+		if siteReachable(rs, removed) {
+			// a return in the block of an untested matching call, behind it
+			passed := false
+			// … or a return that hands on the matching call's own error: it is nil exactly when the call succeeded
+			if ret := rs.Instr.(*ssa.Return); idxG >= 0 && idxG < len(ret.Results) {
+				for _, a := range CallsIn(g, m) {
+					if a.Lifted && !a.Must {
+						continue
+					}
+					if al := errAliases(a); al[ret.Results[idxG]] || al[stripIface(ret.Results[idxG])] {
+						passed = true
+					}
+				}
+			}
+			for _, a := range CallsIn(g, m) {
+				if a.Block == rs.Block && a.Idx < rs.Idx {
+					passed = true
+				}
+			}
+			if !passed {
+				return false
+			}
+		}
+	}
+	return true
+}
+
+// freshContains: g, or a fresh helper it calls, contains a plain call that matches.
+func freshContains(g *ssa.Function, m Matcher, depth int, seen map[*ssa.Function]bool) bool {
+	if g == nil || g.Blocks == nil || depth > 3 || seen[g] {
+		return false
+	}
+	seen[g] = true
+	found := false
+	for _, f := range closuresOf(g) {
+		eachInstr(f, func(s Site) {
+			if found {
+				return
+			}
+			c, ok := s.Instr.(*ssa.Call)
+			if !ok {
+				return
+			}
+			if m(CalleeKey(c)) {
+				found = true
+				return
+			}
+			if sc := c.Call.StaticCallee(); sc != nil && isFresh(sc) && freshContains(sc, m, depth+1, seen) {
+				found = true
+			}
+		})
+	}
+	return found
 }
 
 // AllCallsIn includes defer and go statements.
@@ -1225,4 +1403,60 @@ func refField(t types.Type, i int) string {
 		return names[i]
 	}
 	return st.Field(i).Name()
+}
+
+// pruneStoredConditions extends a set of removed edges by what a stored condition decides: where a block branches on a
+// boolean phi (`c := a || b` computed earlier, `if c` here) and every edge that still brings a value to the phi — its
+// predecessor reachable from the entry without the removed edges, the edge itself not removed — brings the same constant,
+// the branch that constant rules out is removed as well. The phi's block dominates the branch, so the value the phi got on
+// the way there is the one that is tested (the rule is not applied to phis inside loops that are entered again).
+func pruneStoredConditions(fn *ssa.Function, removed map[Edge]bool) {
+	if len(fn.Blocks) == 0 {
+		return
+	}
+	for changed := true; changed; {
+		changed = false
+		reach := reachFrom(fn.Blocks[0], removed)
+		for _, b := range fn.Blocks {
+			if !reach[b] || len(b.Instrs) == 0 || len(b.Succs) != 2 {
+				continue
+			}
+			iff, ok := b.Instrs[len(b.Instrs)-1].(*ssa.If)
+			if !ok {
+				continue
+			}
+			ph, ok := iff.Cond.(*ssa.Phi)
+			if !ok {
+				continue
+			}
+			pb := ph.Block()
+			if pb != b && reachFrom(b, removed)[pb] {
+				continue // the phi can be computed again after the branch: a loop
+			}
+			vals := map[bool]bool{}
+			other := false
+			for i, e := range ph.Edges {
+				pred := pb.Preds[i]
+				if !reach[pred] || removed[Edge{pred, pb}] {
+					continue
+				}
+				if k, isK := e.(*ssa.Const); isK && k.Value != nil && k.Value.Kind() == constant.Bool {
+					vals[constant.BoolVal(k.Value)] = true
+				} else {
+					other = true
+				}
+			}
+			if other || len(vals) != 1 {
+				continue
+			}
+			drop := b.Succs[1]
+			if vals[false] {
+				drop = b.Succs[0]
+			}
+			if !removed[Edge{b, drop}] {
+				removed[Edge{b, drop}] = true
+				changed = true
+			}
+		}
+	}
 }
